@@ -57,6 +57,7 @@ struct Outcome {
     J sample;                        // short description of the case
     long alloc_requests = 0;         // allocator requests of the last op
     std::vector<long> stack_marks;   // caller-workspace usage marks of the last op
+    std::vector<long> stack_peaks;   // per op: largest usage mark
     double mem_total_needed = 0;
 };
 
